@@ -320,6 +320,10 @@ func (p *Pool) Put(x interface{}) {
 		PoolObserver("put", x)
 	}
 	p.items = append(p.items, x)
+	// a second point AFTER the item is in the pool: the code that follows a Put (up to the caller's next
+	// operation) would otherwise be atomic with it, and a caller that goes on using what it has just given back
+	// could never be overtaken by the next Get
+	csched.SchedPoint("pool-put-done", p.id, nil)
 }
 
 // Map mirrors sync.Map: every operation is one scheduling point; Range visits
